@@ -7,4 +7,5 @@ PROP = {'level': 'proof',
                'of 16; the Lean side computes the RFC ciphertext with its own MD5 so a two-sided error in the Go code is a disagreement.',
  'level_note': 'Trusted: Lean kernel; RV.Model.Password as mirror of attribute.go (validated by correspondence); Lean MD5.',
  'trusted': ['Lean MD5 (RFC 1321)'],
- 'assumptions': []}
+ 'assumptions': [],
+ 'facts': ['encUserPassword', 'acceptUserPassword']}
